@@ -1,0 +1,7 @@
+//go:build !verif
+
+package chain
+
+// verifQueueEvent is the empty twin of the recording hook in verif_hooks.go;
+// without the verif build tag the call sites in queue.go compile to nothing.
+func verifQueueEvent(q *ConcurrentQueue, ev string, item interface{}, overflowLen int) {}
